@@ -67,6 +67,7 @@ def run(scn, prefix, keep_trace=False, strict=True):
                 c.stall = True
         pending = list(scn.script)
         pos = 0
+        last_actor = None
         t_end = loop.time() + scn.horizon
         guard = 0
         while True:
@@ -80,7 +81,15 @@ def run(scn, prefix, keep_trace=False, strict=True):
             if not boundary or loop.has_ready():
                 default = ("run",)
             elif jobs:
-                default = ("job", 0)
+                # keep serving the actor (asyncio task) whose job completed last, if it has another one pending: letting another
+                # actor run for many steps while this one waits then costs ONE deviation (a preemption), not one per step
+                k = 0
+                if last_actor is not None:
+                    for i, j in enumerate(jobs):
+                        if j.actor == last_actor:
+                            k = i
+                            break
+                default = ("job", k)
             else:
                 default = None
                 for i, (cn, fr) in enumerate(pending):
@@ -157,6 +166,7 @@ def run(scn, prefix, keep_trace=False, strict=True):
             if k == "run":
                 loop.run_one_handle()
             elif k == "job":
+                last_actor = jobs[act[1]].actor
                 loop.complete_job(jobs[act[1]])
             elif k == "frame":
                 cn = act[1]
